@@ -73,15 +73,23 @@ def build_tools():
     return rc, out
 
 
-def tgen():
-    """Regenerate coq/Gen/*.v from /repo. Returns (ok, message)."""
+def tgen(areas=None):
+    """Regenerate coq/Gen/*.v from /repo. Returns (ok, message); only errors of the
+    given areas (Gen/Params<area>.v files the property depends on) count."""
     if not os.path.exists(os.path.join(BIN, "goextract")):
         rc, out = build_tools()
         if rc != 0:
             return False, "goextract build failed:\n" + out
     with Lock("coq"):
         rc, out, _ = run([os.path.join(BIN, "goextract"), REPO, os.path.join(COQ, "Gen")], timeout=120)
-    return rc == 0, out
+    if rc == 0:
+        return True, out
+    if rc == 2 and areas is not None:
+        mine = [l for l in out.splitlines() if any(("[%s]" % a) in l for a in areas)]
+        if not mine:
+            return True, out
+        return False, "\n".join(mine)
+    return False, out
 
 
 # ---------------------------------------------------------------- Coq build
@@ -105,7 +113,7 @@ def theorem_names(props_file):
     return re.findall(r"^\s*(?:Theorem|Example)\s+([A-Za-z0-9_']+)", src, flags=re.M)
 
 
-def coq_build(prop_id, clean=False, timeout=3000):
+def coq_build(prop_id, clean=False, timeout=3000, extra_targets=()):
     """Build Props/<id>.vo (full .vo build of its closure). Returns dict."""
     res = {"ok": False, "obligations": 0, "discharged": 0, "axioms": [], "log": "", "failed_at": None, "theorems": []}
     props_v = os.path.join(COQ, "Props", prop_id + ".v")
@@ -121,7 +129,7 @@ def coq_build(prop_id, clean=False, timeout=3000):
             p = os.path.join(COQ, "Props", prop_id + ext)
             if os.path.exists(p):
                 os.remove(p)
-        rc, out, wall = run(["make", "-j16", "Props/%s.vo" % prop_id], cwd=COQ, timeout=timeout)
+        rc, out, wall = run(["make", "-j16", "Props/%s.vo" % prop_id] + list(extra_targets), cwd=COQ, timeout=timeout)
     res["log"] = out[-20000:]
     res["wall_s"] = wall
     # Print Assumptions output: one block per theorem, in order
@@ -296,10 +304,15 @@ def load_oracle(outdir):
 
 def known_findings(prop_id):
     p = os.path.join(VERIF, "KNOWN_FINDINGS.json")
-    if not os.path.exists(p):
-        return []
-    data = json.load(open(p))
-    return [f for f in data.get("findings", []) if f.get("property") == prop_id and f.get("status", "known") == "known"]
+    items = []
+    if os.path.exists(p):
+        items += json.load(open(p)).get("findings", [])
+    for q in sorted(glob.glob(os.path.join(VERIF, "findings", "*.json"))):
+        try:
+            items += json.load(open(q))
+        except Exception as e:  # a malformed file must not silence anything
+            print("warning: cannot read %s: %s" % (q, e))
+    return [f for f in items if f.get("property") == prop_id and f.get("status", "known") == "known"]
 
 
 def write_replay(prop_id, payload):
@@ -332,13 +345,13 @@ def standard_check(prop_id, tier, seed, spec):
     violations = []      # (kind, detail dict)
     notes = []
 
-    ok, msg = tgen()
+    ok, msg = tgen(spec.get("gen_areas"))
     tgen_broken = None
     if not ok:
         tgen_broken = msg.strip()
         notes.append("T-gen failed: " + tgen_broken)
 
-    cb = coq_build(prop_id, clean=False, timeout=3300)
+    cb = coq_build(prop_id, clean=False, timeout=3300, extra_targets=spec.get("corr_targets", ()))
     forb = forbidden_scan()
     coqchk_out = None
     if thorough and cb["ok"] and not os.environ.get("VERIF_SKIP_COQCHK"):
